@@ -1105,7 +1105,9 @@ def c12_oracle(ops, r, exempt_n9=False):   # N9 is repaired in /repo
             # the base space's own references over the model's; a parameter wins over a reference, a cells over a parameter
             it = d.get("item")
             if it is not None:
-                if "err" in it or "clear_err" in it:
+                if ("err" in it or "clear_err" in it) and any(isinstance(v[1], str) and v[1].startswith("?iface:") for v in d["own"].values()):
+                    pass      # re-binding a reference to a space / cells inside the ItemSpace failed: C10's domain, not judged here
+                elif "err" in it or "clear_err" in it:
                     bad.append("step %d %r: the ItemSpace of %s cannot be built / deleted: %r" % (i - 1, op, p, it))
                 else:
                     iexp = {}
